@@ -51,6 +51,19 @@ func (k Keeper) CheckAndLiquidateUnhealthyPosition(ctx sdk.Context, mtp *types.M
 
 	k.SetPool(ctx, pool)
 
+	// interest and funding settlement above changed custody and amm pool balances even if the position stays open
+	if k.hooks != nil {
+		ammPool, err = k.GetAmmPool(ctx, mtp.AmmPoolId)
+		if err != nil {
+			return err
+		}
+		params := k.GetParams(ctx)
+		err = k.hooks.AfterPerpetualPositionModified(ctx, ammPool, pool, mtp.GetAccountAddress(), params.EnableTakeProfitCustodyLiabilities)
+		if err != nil {
+			return err
+		}
+	}
+
 	// check MTP health against threshold
 	safetyFactor := k.GetSafetyFactor(ctx)
 
